@@ -904,6 +904,40 @@ def l26(ctx, rid):
         ctx.ok(rid, key, f.where(), 'every return of close() is preceded by a dump of the closed blobs (%d site(s))' % len(ev))
 
 
+def l27(ctx, rid):
+    """the bound on how long a deferred index dump can be postponed starts at the first request: `DeferredEventData.first_time` is
+    written only where the event is created - no method re-assigns it or the whole value (`*self = Self::new()`).  Reset on every
+    further request, the dump is postponed for as long as requests keep arriving faster than the minimum delay: it never runs"""
+    prog = ctx.prog
+    n = 0
+    bad = None
+    for f in prog.fns.values():
+        if f.file != WORKER_FILE:
+            continue
+        root = prog.fns[f.id].root
+        for i in f.reachable():
+            for st in f.blocks[i]['s']:
+                if st['k'] != 'a':
+                    continue
+                flds = core.place_fields(st['d'])
+                ty = core.place_type_str(f, st['d']) or ''
+                whole = ('DeferredEventData' in ty and not [x for x in flds if x] and st['d'][1] and st['d'][1][-1] == '*')
+                if flds[-1:] == ['first_time'] or whole:
+                    n += 1
+                    if not root.endswith('DeferredEventData::new'):
+                        bad = (f, i, 'first_time' if not whole else 'the whole event')
+        for st_b in f.blocks:
+            pass
+    made = sum(1 for f in prog.fns.values() if f.file == WORKER_FILE for i in f.reachable() for st in f.blocks[i]['s']
+               if st['k'] == 'a' and st['r']['k'] == 'agg' and 'DeferredEventData' in str(st['r'].get('adt')))
+    if made < 1:
+        raise core.AnchorLost('constructions of DeferredEventData: %d' % made)
+    if bad:
+        ctx.bad(rid, 'first-request-time-kept', bad[0].where(bad[1]), '%s of a registered deferred event is overwritten outside its constructor: the maximum postponement restarts with every request' % bad[2])
+    else:
+        ctx.ok(rid, 'first-request-time-kept', '', 'first_time is set at construction only (%d construction(s))' % made, nontrivial=False, queries=made)
+
+
 RULES = [
     Rule('C13.L1', 'the worker loop is only left through the Stop arm (recv() == None) and contains no reachable panic written in the worker module', l1, 4),
     Rule('C13.L3', 'one channel, Sender never cloned, stored only in the Running state, dropped before the worker handle is awaited', l3, 4),
@@ -928,6 +962,7 @@ RULES = [
     Rule('C13.L24', 'the worker never unwraps the active-blob slot', l24, 1),
     Rule('C13.L25', 'no deadline is armed for a deferred dump whose event was taken out', l25, 1),
     Rule('C13.L26', 'a clean close completes the index dumps of the closed blobs', l26, 1),
+    Rule('C13.L27', 'the first-request time of a deferred event is set at its creation only', l27, 1),
     Rule('C13.L15', 'the blob id counter is never given back: a creation failure bound to one file name cannot repeat for ever (C07.H6 instances)', l15, 3),
     Rule('C13.L8', 'request-pending / in-progress flags are released on every path of their handler (C12.S8 instances)', l8, 1),
 ]
